@@ -28,14 +28,27 @@
    the signature check, and finishes the handshake only if both succeed).
 
    CheckSpki / CheckSig = TRUE is the design the property requires (and the pinned code);
-   FALSE drops the SPKI comparison / the signature check and must be refuted (anti-vacuity). *)
+   FALSE drops the SPKI comparison / the signature check and must be refuted (anti-vacuity).
+
+   Weak keys.  An endpoint id only has to be a curve point, and the eight small-order points are
+   curve points.  For such a point A the permissive Ed25519 equation [s]B = R + [k]A is satisfied by
+   s = 0 and a small-order R chosen from eight candidates, for every message: a "universal forgery"
+   that anybody can write down without any secret (Forgery below).  The property demands proof of
+   the *secret* key, and for a weak id there is none to prove: such a handshake must never complete.
+   Ed25519Dalek::verify_signature goes through iroh_base::PublicKey::verify = verify_strict, which
+   refuses small-order A and R (Strict = TRUE); Strict = FALSE models dalek's plain `verify` and
+   must be refuted. *)
 EXTENDS Naturals, FiniteSets, TLC, Json
 
-CONSTANTS Keys,        \* key names (strings)
+CONSTANTS Keys,        \* names of ordinary keys: a secret key exists, a party may or may not hold it
+          WeakKeys,    \* names of valid-but-weak curve points (the small-order points of edwards25519, which
+                       \* EndpointId::from_bytes accepts): usable as an id, but NOBODY holds a secret for them
           MaxInter,    \* max. number of intermediates in an offer
           HeldMode,    \* which key sets the peer may hold: "all" = SUBSET Keys (the proof), "full" = {Keys}
                        \* (every offer reachable once: prints the cases), "few" = {{}, {one key}} (refutations)
-          CheckSpki, CheckSig
+          CheckSpki, CheckSig,
+          Strict       \* TRUE: signatures are checked with verify_strict (iroh_base::PublicKey::verify, the pinned
+                       \* code); FALSE: with the permissive Ed25519 check, which accepts small-order A and R
 VARIABLES side, held, offer, phase, remoteId
 vars == <<side, held, offer, phase, remoteId>>
 
@@ -84,8 +97,10 @@ EncName(k) == [form |-> "enc", key |-> k]
 \* decoding them to the key or refusing them both satisfy it; everything else is determined.
 DecodeAllowed(n) == IF n.form \in {"encUpper", "upperSuffix"} THEN {n.key, None} ELSE {DecodeName(n)}
 KeyedForms == NameForms \ {"nonPoint", "ip", "bare", "emptyLabel"}
+AllKeys == Keys \cup WeakKeys
 Names == {[form |-> f, key |-> k] : f \in KeyedForms, k \in Keys}
            \cup {[form |-> f, key |-> None] : f \in NameForms \ KeyedForms}
+           \cup {[form |-> "enc", key |-> w] : w \in WeakKeys}          \* a weak id is dialable like any other
 NoName == [form |-> "na", key |-> None]
 
 (* End-entity "certificates": (class, key) *)
@@ -97,11 +112,15 @@ EEKeyed == {"spki",        \* rustls::sign::public_key_to_spki(ED25519, key): wh
             "rawkey"}      \* the bare 32 key bytes
 EEUnkeyed == {"nonPointSpki", "garbage", "empty"}
 EEs == {[cls |-> c, key |-> k] : c \in EEKeyed, k \in Keys} \cup {[cls |-> c, key |-> None] : c \in EEUnkeyed}
+         \cup {[cls |-> "spki", key |-> w] : w \in WeakKeys}              \* the well-formed SPKI of a weak point
 \* the key for which `ee` is byte-for-byte the Ed25519 SPKI
 SpkiKey(ee) == IF ee.cls = "spki" THEN ee.key ELSE None
 
 Replay == "replay"   \* a genuine signature by the presented key, but over another handshake's transcript
-Signers == Keys \cup {None, Replay}            \* None: a signature not made with any key (random bytes)
+Forgery == "forgery" \* the universal forgery for weak keys (s = 0, R small-order): anybody can construct it, it is
+                     \* NOT a signature by any secret key
+Free == {None, Replay, Forgery}                \* what the peer can present without holding a secret
+Signers == Keys \cup Free                      \* None: a signature not made with any key (random bytes)
 Schemes == {"ed25519", "other"}
 AllOffers == [name : Names \cup {NoName}, ee : EEs, inter : 0..MaxInter, signer : Signers, scheme : Schemes]
 NoOffer == [name |-> NoName, ee |-> [cls |-> "empty", key |-> None], inter |-> 0, signer |-> None, scheme |-> "other"]
@@ -117,8 +136,11 @@ ServerCertErr(o) ==
   ELSE "ok"
 ClientCertErr(o) == IF o.inter > 0 THEN "UnknownIssuer" ELSE "ok"
 CertErr(s, o) == IF s = "client" THEN ServerCertErr(o) ELSE ClientCertErr(o)
-\* verify_tls13_signature: the certificate parses as an Ed25519 SPKI and the signature is by that key
-SigOk(o) == (~CheckSig) \/ (o.scheme = "ed25519" /\ SpkiKey(o.ee) # None /\ o.signer = SpkiKey(o.ee))
+\* Ed25519Dalek::verify_signature(key k, transcript, signature term sg)
+Verifies(k, sg) == \/ sg = k                                             \* made with k's secret over this transcript
+                   \/ (~Strict) /\ k \in WeakKeys /\ sg = Forgery          \* permissive check only
+\* verify_tls13_signature: the certificate parses as an Ed25519 SPKI and the signature verifies under that key
+SigOk(o) == (~CheckSig) \/ (o.scheme = "ed25519" /\ SpkiKey(o.ee) # None /\ Verifies(SpkiKey(o.ee), o.signer))
 Completes(s, o) == CertErr(s, o) = "ok" /\ SigOk(o)
 
 ---------------------------------------------------------------------------
@@ -126,9 +148,9 @@ Init == /\ side \in {"client", "server"} /\ held \in HeldSets
         /\ offer = NoOffer /\ phase = "start" /\ remoteId = None
 
 \* the peer presents anything it can build; it signs this handshake only with keys it holds
-\* (it may replay signatures it has seen, of any key)
+\* (it may replay signatures it has seen, of any key, and write down the universal forgery)
 PeerOffer == /\ phase = "start"
-             /\ \E o \in AllOffers : /\ ForSide(o, side) /\ o.signer \in held \cup {None, Replay}
+             /\ \E o \in AllOffers : /\ ForSide(o, side) /\ o.signer \in held \cup Free
                                      /\ offer' = o
              /\ phase' = "offered" /\ UNCHANGED <<side, held, remoteId>>
 VerifyCert == /\ phase = "offered"
@@ -148,7 +170,7 @@ Spec == Init /\ [][Next]_vars
 (* C01 *)
 \* a dial to id d completes only against a peer that holds d's secret key, and reports d
 DialAuth == side = "client" /\ phase = "done" =>
-  \A d \in Keys : offer.name = EncName(d) => d \in held /\ remoteId = d
+  \A d \in AllKeys : offer.name = EncName(d) => d \in held /\ remoteId = d        \* held \subseteq Keys: never for a weak id
 \* whatever name reached the verifier: completion means the peer proved the key the name decodes to
 ClientAuth == side = "client" /\ phase = "done" =>
   /\ DecodeName(offer.name) # None /\ DecodeName(offer.name) \in held /\ remoteId = DecodeName(offer.name)
@@ -158,7 +180,9 @@ ServerAuth == side = "server" /\ phase = "done" => remoteId # None /\ remoteId \
 HonestOffer(d) == [name |-> EncName(d), ee |-> [cls |-> "spki", key |-> d], inter |-> 0, signer |-> d, scheme |-> "ed25519"]
 HonestCompletes == \A d \in Keys : Completes("client", HonestOffer(d))
 \* names: encode/decode round trip, and decoding succeeds only on the exact three-label shape
-NameRoundTrip == \A k \in Keys : DecodeName(EncName(k)) = k
+NameRoundTrip == \A k \in AllKeys : DecodeName(EncName(k)) = k
+\* nobody is ever authenticated as a weak id, on either side
+NoWeakIdentity == phase = "done" => remoteId \notin WeakKeys
 NameShapeRule == \A n \in Names : DecodeName(n) # None =>
   LET s == Struct(n.form) IN s.labels = 3 /\ s.mid = "iroh" /\ s.tld = "invalid" /\ s.first \in {"b32", "b32Upper"}
                                 /\ DecodeName(n) = n.key
@@ -174,5 +198,9 @@ Emit == (phase \in {"done", "failed"} /\ held = Keys) =>
                               sig_ok |-> SigOk(offer), complete |-> (phase = "done"), remote_id |-> remoteId,
                               decode |-> DecodeAllowed(offer.name),
                               honest |-> ((side = "client" => offer.name.form = "enc") /\ offer.ee.cls = "spki" /\ offer.inter = 0
-                                          /\ offer.signer = offer.ee.key /\ offer.scheme = "ed25519")])>>)
+                                          /\ offer.signer = offer.ee.key /\ offer.scheme = "ed25519"),
+                              \* the key-less impostor: presents a weak point and the universal forgery
+                              impostor |-> ((side = "client" => offer.name = EncName(offer.ee.key)) /\ offer.ee.cls = "spki"
+                                            /\ offer.ee.key \in WeakKeys /\ offer.inter = 0 /\ offer.signer = Forgery
+                                            /\ offer.scheme = "ed25519")])>>)
 =============================================================================
